@@ -162,6 +162,7 @@ def run(scn):
         name = scn['request']
         w = core.World(root=root, faults=scn.get('faults', ()), rate=scn.get('rate'), listing_seed=scn.get('listing_seed'), clock=T0 + 10 ** 6)
         res = None
+        results = []
         with w:
             w.begin_op(0, 'construct')
             try:
@@ -188,8 +189,11 @@ def run(scn):
                 want_cls = FileReader if scn['kind'] == 'dir' else ZipReader
                 if scn.get('url_judged', True) and not isinstance(rd, want_cls):
                     V('C14.5-url', 'URL %s mapped to %s, expected %s' % (scn.get('url_style'), type(rd).__name__, want_cls.__name__), what='url-kind')
-                for k in range(scn.get('repeat', 1)):
-                    w.begin_op(1 + k, 'getData')
+                opn = 0
+                for name in [scn['request']] + list(scn.get('more_requests', [])) * 1 + ([scn['request']] if scn.get('more_requests') else []):
+                  for k in range(scn.get('repeat', 1)):
+                    opn += 1
+                    w.begin_op(opn, 'getData')
                     try:
                         info, text = rd.getData(name)
                         res = ('ok', info, text)
@@ -202,86 +206,90 @@ def run(scn):
                             raise
                         res = ('foreign', type(e).__name__, e)
                     w.end_op(res[0])
+                    results.append((name, res))
         faulted = bool(w.fired) or bool(scn.get('notazip'))
-        # ---------------- reference model
-        cap = scn.get('maxMibSize') or 10000000
-        leaves = []
-        for e in scn['tree']:
-            segs = e['path'].split('!/')
-            base = os.path.basename(segs[-1])
-            data = binascii.unhexlify(e['hex'])
-            depth = len(segs) - 1
-            if scn['kind'] == 'dir':
-                sub = os.path.dirname(e['path'])
-                reachable = (sub == '') or scn.get('recursive', True)
-            else:
-                reachable = True
-                # an inner archive must be named *.zip / *.ZIP to be entered
-                if any(not (s.endswith('.zip') or s.endswith('.ZIP')) for s in segs[:-1]):
-                    reachable = False
-            if base.endswith('.zip') or base.endswith('.ZIP'):
-                if scn['kind'] == 'zip':
-                    reachable = False   # treated as an archive, not as a MIB file
-            leaves.append({'base': base, 'data': data, 'mtime': e['mtime'], 'reachable': reachable, 'depth': depth, 'corrupt': bool(e.get('corrupt')), 'path': e['path']})
-        idx = None
-        if scn['kind'] == 'dir' and scn.get('index') is not None and scn.get('useIndexFile', True):
-            m = dict((k, v) for k, v in scn['index'])
-            if name in m:
-                idx = m[name]
-        if idx is not None:
-            wide = set([idx])
-            corev = set([idx])
-            if w.fired:
-                # a fault while loading .index legitimately makes the reader fall back to plain name matching
-                wide |= with_exts(wide_names(name, o))
-        else:
-            wide = with_exts(wide_names(name, o))
-            corev = with_exts(core_names(name, o))
-        A_wide = [l for l in leaves if l['base'] in wide and l['reachable']]
-        A_core = [l for l in leaves if l['base'] in corev and l['reachable'] and not l['corrupt'] and 0 < len(l['data']) < cap]
-        # a core candidate that is shadowed by an earlier-tried candidate which is too large / empty / corrupt may legitimately lead to an error
-        blockers = [l for l in A_wide if l['corrupt'] or len(l['data']) >= cap or len(l['data']) == 0]
-        facts = {'options': sorted(k for k in OPTS if not o.get(k, True)), 'cap': scn.get('maxMibSize'), 'index': idx is not None, 'faulted': faulted,
-                 'maxdepth': max([l['depth'] for l in leaves] or [0])}
-        if res is None:
-            res = ('none', '', None)
-        rescls = res[0]
-        if rescls == 'construct-raised':
-            if not faulted:
-                V('C14.1-right-file', 'constructing the reader raised %s' % res[1], what='construct-raised', exception=res[1], **facts)
-        elif rescls == 'ok':
-            info, text = res[1], res[2]
-            match = [l for l in A_wide if decode(l['data']) == text and l['mtime'] == info.mtime and l['base'] == info.file and not l['corrupt']]
-            if not match:
-                byname = [l for l in leaves if l['base'] == info.file]
-                if info.file not in wide:
-                    V('C14.3-unrelated', 'request %s answered from file %s, which is not a variant of the name' % (name, info.file), what='unrelated-file', file=info.file, **facts)
-                elif not any(decode(l['data']) == text for l in byname):
-                    trunc = any(decode(l['data']).startswith(text) and text for l in byname)
-                    V('C14.1-right-file', 'content returned for %s (file %s) is not the content of any such file%s' % (name, info.file, ' (truncated)' if trunc else ''),
-                      what='wrong-content-truncated' if trunc else 'wrong-content', **facts)
-                elif not any(decode(l['data']) == text and l['mtime'] == info.mtime for l in byname):
-                    V('C14.1-right-file', 'modification time %r returned for %s does not belong to the file whose content was returned (%s)' % (
-                        info.mtime, info.file, sorted(set(l['mtime'] for l in byname if decode(l['data']) == text))), what='wrong-mtime', **facts)
+        all_res = []
+        for name, res in (results or [(name, res)]):
+            # ---------------- reference model
+            cap = scn.get('maxMibSize') or 10000000
+            leaves = []
+            for e in scn['tree']:
+                segs = e['path'].split('!/')
+                base = os.path.basename(segs[-1])
+                data = binascii.unhexlify(e['hex'])
+                depth = len(segs) - 1
+                if scn['kind'] == 'dir':
+                    sub = os.path.dirname(e['path'])
+                    reachable = (sub == '') or scn.get('recursive', True)
                 else:
-                    V('C14.1-right-file', 'file %s was returned although it is not reachable / acceptable' % info.file, what='unreachable', **facts)
-            if info.name not in (name,) and idx is None and info.name not in wide_names(name, o):
-                V('C14.1-right-file', 'alias %r reported for request %r' % (info.name, name), what='alias', **facts)
-        elif rescls == 'notfound':
-            if A_core and not faulted and not blockers:
-                V('C14.2-not-found', 'not-found reported for %s although %s exists' % (name, sorted(set(l['path'] for l in A_core))[:3]), what='false-not-found',
-                  nested=min(l['depth'] for l in A_core), **facts)
-        elif rescls == 'pkgerror':
-            if not faulted and not blockers and not A_wide:
-                V('C14.2-not-found', 'no variant of %s exists, but %s was raised instead of not-found' % (name, res[1]), what='error-not-notfound', exception=res[1], **facts)
-            if not faulted and not blockers and A_core:
-                V('C14.2-not-found', '%s raised for %s although %s exists' % (res[1], name, sorted(set(l['path'] for l in A_core))[:3]), what='false-error', exception=res[1], **facts)
-        elif rescls == 'foreign':
-            if not faulted:
-                V('C14.1-right-file', 'reader raised %s: %s' % (res[1], str(res[2])[:100]), what='foreign-exception', exception=res[1], blocked=bool(blockers), **facts)
+                    reachable = True
+                    # an inner archive must be named *.zip / *.ZIP to be entered
+                    if any(not (s.endswith('.zip') or s.endswith('.ZIP')) for s in segs[:-1]):
+                        reachable = False
+                if base.endswith('.zip') or base.endswith('.ZIP'):
+                    if scn['kind'] == 'zip':
+                        reachable = False   # treated as an archive, not as a MIB file
+                leaves.append({'base': base, 'data': data, 'mtime': e['mtime'], 'reachable': reachable, 'depth': depth, 'corrupt': bool(e.get('corrupt')), 'path': e['path']})
+            idx = None
+            if scn['kind'] == 'dir' and scn.get('index') is not None and scn.get('useIndexFile', True):
+                m = dict((k, v) for k, v in scn['index'])
+                if name in m:
+                    idx = m[name]
+            if idx is not None:
+                wide = set([idx])
+                corev = set([idx])
+                if w.fired:
+                    # a fault while loading .index legitimately makes the reader fall back to plain name matching
+                    wide |= with_exts(wide_names(name, o))
             else:
-                w.probe('foreign-exception-under-fault:%s' % res[1])
-        fp, fph = w.fingerprints(extra=[rescls, res[1] if rescls != 'ok' else [res[1].file, res[1].mtime]])
+                wide = with_exts(wide_names(name, o))
+                corev = with_exts(core_names(name, o))
+            A_wide = [l for l in leaves if l['base'] in wide and l['reachable']]
+            A_core = [l for l in leaves if l['base'] in corev and l['reachable'] and not l['corrupt'] and 0 < len(l['data']) < cap]
+            # a core candidate that is shadowed by an earlier-tried candidate which is too large / empty / corrupt may legitimately lead to an error
+            blockers = [l for l in A_wide if l['corrupt'] or len(l['data']) >= cap or len(l['data']) == 0]
+            facts = {'options': sorted(k for k in OPTS if not o.get(k, True)), 'cap': scn.get('maxMibSize'), 'index': idx is not None, 'faulted': faulted,
+                     'maxdepth': max([l['depth'] for l in leaves] or [0])}
+            if res is None:
+                res = ('none', '', None)
+            rescls = res[0]
+            if rescls == 'construct-raised':
+                if not faulted:
+                    V('C14.1-right-file', 'constructing the reader raised %s' % res[1], what='construct-raised', exception=res[1], **facts)
+            elif rescls == 'ok':
+                info, text = res[1], res[2]
+                match = [l for l in A_wide if decode(l['data']) == text and l['mtime'] == info.mtime and l['base'] == info.file and not l['corrupt']]
+                if not match:
+                    byname = [l for l in leaves if l['base'] == info.file]
+                    if info.file not in wide:
+                        V('C14.3-unrelated', 'request %s answered from file %s, which is not a variant of the name' % (name, info.file), what='unrelated-file', file=info.file, **facts)
+                    elif not any(decode(l['data']) == text for l in byname):
+                        trunc = any(decode(l['data']).startswith(text) and text for l in byname)
+                        V('C14.1-right-file', 'content returned for %s (file %s) is not the content of any such file%s' % (name, info.file, ' (truncated)' if trunc else ''),
+                          what='wrong-content-truncated' if trunc else 'wrong-content', **facts)
+                    elif not any(decode(l['data']) == text and l['mtime'] == info.mtime for l in byname):
+                        V('C14.1-right-file', 'modification time %r returned for %s does not belong to the file whose content was returned (%s)' % (
+                            info.mtime, info.file, sorted(set(l['mtime'] for l in byname if decode(l['data']) == text))), what='wrong-mtime', **facts)
+                    else:
+                        V('C14.1-right-file', 'file %s was returned although it is not reachable / acceptable' % info.file, what='unreachable', **facts)
+                if info.name not in (name,) and idx is None and info.name not in wide_names(name, o):
+                    V('C14.1-right-file', 'alias %r reported for request %r' % (info.name, name), what='alias', **facts)
+            elif rescls == 'notfound':
+                if A_core and not faulted and not blockers:
+                    V('C14.2-not-found', 'not-found reported for %s although %s exists' % (name, sorted(set(l['path'] for l in A_core))[:3]), what='false-not-found',
+                      nested=min(l['depth'] for l in A_core), **facts)
+            elif rescls == 'pkgerror':
+                if not faulted and not blockers and not A_wide:
+                    V('C14.2-not-found', 'no variant of %s exists, but %s was raised instead of not-found' % (name, res[1]), what='error-not-notfound', exception=res[1], **facts)
+                if not faulted and not blockers and A_core:
+                    V('C14.2-not-found', '%s raised for %s although %s exists' % (res[1], name, sorted(set(l['path'] for l in A_core))[:3]), what='false-error', exception=res[1], **facts)
+            elif rescls == 'foreign':
+                if not faulted:
+                    V('C14.1-right-file', 'reader raised %s: %s' % (res[1], str(res[2])[:100]), what='foreign-exception', exception=res[1], blocked=bool(blockers), **facts)
+                else:
+                    w.probe('foreign-exception-under-fault:%s' % res[1])
+            all_res.append([name, rescls, res[1] if rescls != 'ok' else [res[1].file, res[1].mtime]])
+        fp, fph = w.fingerprints(extra=all_res)
         matched = ''
         if rescls == 'ok':
             matched = 'core' if res[1].file in corev else 'fuzzy'
@@ -296,7 +304,7 @@ def run(scn):
         if blockers:
             probes['size-cap-or-corrupt-candidate'] = 1
         return {'violations': viol, 'sig': sig, 'nontrivial': len(scn['tree']) >= 2 or bool(w.fired), 'events': len(w.log), 'sim_s': 0,
-                'fired': dict(w.fired), 'probes': probes, 'fp': fp, 'fph': fph, 'comps': {'reader.getData(real)': scn.get('repeat', 1)}, 'result': rescls}
+                'fired': dict(w.fired), 'probes': probes, 'fp': fp, 'fph': fph, 'comps': {'reader.getData(real)': max(1, len(results))}, 'result': rescls}
     finally:
         core.drop_root(root)
 
@@ -416,8 +424,26 @@ def generate(rng, tier):
         if kind == 'zip' and rng.random() < 0.06:
             e['corrupt'] = True
         tree.append(e)
-    # zip member names must be unique per archive and never collide with inner archive names
     scn = {'kind': kind, 'request': name, 'options': o, 'tree': tree, 'listing_seed': rng.randrange(1 << 30)}
+    if rng.random() < 0.3:
+        # several look-ups through one reader object: other module names with files of their own, for ZIPs
+        # preferably in same-named inner archives of sibling containers
+        others = [x for x in ['QUX-MIB', 'Zed', 'OTHER-MIB'] if x != name][:rng.choice([1, 2])]
+        for j, on in enumerate(others):
+            base = on + rng.choice(['', '.txt', '.mib'])
+            if kind == 'dir':
+                path = rng.choice(['', 'sub/', 'other/']) + base
+            else:
+                path = rng.choice(['vendor%d.zip!/mibs.zip!/' % (j + 1), 'vendor%d.zip!/mibs.zip!/d/' % (j + 1), 'inner.zip!/in2.ZIP!/', '']) + base
+            if path not in used and not any(p.startswith(path + '/') or path.startswith(p + '/') for p in used):
+                used.add(path)
+                tree.append({'path': path, 'hex': _hex(gen_content(rng, path)), 'mtime': T0 + 2 * rng.randrange(0, 50000)})
+        if kind == 'zip' and rng.random() < 0.7:
+            path = 'vendor9.zip!/mibs.zip!/' + rng.choice(cands)
+            if path not in used:
+                used.add(path)
+                tree.append({'path': path, 'hex': _hex(gen_content(rng, path)), 'mtime': T0 + 2 * rng.randrange(0, 50000)})
+        scn['more_requests'] = others
     if kind == 'dir':
         scn['url_style'] = rng.choice(['bare', 'file'])
         if rng.random() < 0.2:
@@ -460,7 +486,7 @@ def shrink(scn):
         s = copy.deepcopy(scn)
         del s['tree'][i]
         yield s
-    for k in ('maxMibSize', 'index', 'empty_dirs', 'repeat', 'recursive', 'ignoreErrors', 'useIndexFile', 'notazip'):
+    for k in ('maxMibSize', 'index', 'empty_dirs', 'repeat', 'recursive', 'ignoreErrors', 'useIndexFile', 'notazip', 'more_requests'):
         if k in scn:
             s = copy.deepcopy(scn)
             s.pop(k)
